@@ -20,14 +20,14 @@ def stepConst (one : Int) (_ _ : Nat) : Int := one
 `gis_utils.distance` values, exact rationals scaled by a power of two) -/
 def stepTab (tab : Array Int) (i _ : Nat) : Int := tab[i]!
 
-def absDiff (a b : Nat) : Nat := if a ≤ b then b - a else a - b
+def absDiff_c11 (a b : Nat) : Nat := if a ≤ b then b - a else a - b
 
 /-- squared length of the step `i → j` on a projected raster: `(yres*dr)^2 + (xres*dc)^2` with
 `dr = |r1 - r0|`, `dc = |c1 - c0|`, `r = idx // ncol`, `c = idx % ncol`
 (the argument of `math.hypot` in `gis_utils.distance`, `latlon=False`) -/
 def distProjSq (ncol : Nat) (xres yres : Int) (i j : Nat) : Nat :=
-  let dr := absDiff (i / ncol) (j / ncol)
-  let dc := absDiff (i % ncol) (j % ncol)
+  let dr := absDiff_c11 (i / ncol) (j / ncol)
+  let dc := absDiff_c11 (i % ncol) (j % ncol)
   ((yres * dr) * (yres * dr) + (xres * dc) * (xres * dc)).toNat
 
 /-- `gis_utils.distance(idx0, idx1, ncol, False, transform)`: `math.hypot(yres*dr, xres*dc)`.
